@@ -16,21 +16,27 @@ theories/ETDRK/Phi.vos theories/ETDRK/Phi.vok theories/ETDRK/Phi.required_vos: t
 theories/Exec/Codec.vo theories/Exec/Codec.glob theories/Exec/Codec.v.beautified theories/Exec/Codec.required_vo: theories/Exec/Codec.v theories/Base/Scalar.vo theories/Base/FieldLemmas.vo theories/Base/Cplx.vo
 theories/Exec/Codec.vio: theories/Exec/Codec.v theories/Base/Scalar.vio theories/Base/FieldLemmas.vio theories/Base/Cplx.vio
 theories/Exec/Codec.vos theories/Exec/Codec.vok theories/Exec/Codec.required_vos: theories/Exec/Codec.v theories/Base/Scalar.vos theories/Base/FieldLemmas.vos theories/Base/Cplx.vos
-theories/Exec/Entry.vo theories/Exec/Entry.glob theories/Exec/Entry.v.beautified theories/Exec/Entry.required_vo: theories/Exec/Entry.v theories/Base/Scalar.vo theories/Base/FieldLemmas.vo theories/Base/Cplx.vo theories/Exec/Codec.vo theories/Utils/Rollout.vo theories/Gen/ETDRK.vo
-theories/Exec/Entry.vio: theories/Exec/Entry.v theories/Base/Scalar.vio theories/Base/FieldLemmas.vio theories/Base/Cplx.vio theories/Exec/Codec.vio theories/Utils/Rollout.vio theories/Gen/ETDRK.vio
-theories/Exec/Entry.vos theories/Exec/Entry.vok theories/Exec/Entry.required_vos: theories/Exec/Entry.v theories/Base/Scalar.vos theories/Base/FieldLemmas.vos theories/Base/Cplx.vos theories/Exec/Codec.vos theories/Utils/Rollout.vos theories/Gen/ETDRK.vos
+theories/Exec/Entry.vo theories/Exec/Entry.glob theories/Exec/Entry.v.beautified theories/Exec/Entry.required_vo: theories/Exec/Entry.v theories/Base/Scalar.vo theories/Base/FieldLemmas.vo theories/Base/Cplx.vo theories/Exec/Codec.vo theories/Utils/Rollout.vo theories/Gen/ETDRK.vo theories/Gen/Guards.vo
+theories/Exec/Entry.vio: theories/Exec/Entry.v theories/Base/Scalar.vio theories/Base/FieldLemmas.vio theories/Base/Cplx.vio theories/Exec/Codec.vio theories/Utils/Rollout.vio theories/Gen/ETDRK.vio theories/Gen/Guards.vio
+theories/Exec/Entry.vos theories/Exec/Entry.vok theories/Exec/Entry.required_vos: theories/Exec/Entry.v theories/Base/Scalar.vos theories/Base/FieldLemmas.vos theories/Base/Cplx.vos theories/Exec/Codec.vos theories/Utils/Rollout.vos theories/Gen/ETDRK.vos theories/Gen/Guards.vos
 theories/Exec/Extract.vo theories/Exec/Extract.glob theories/Exec/Extract.v.beautified theories/Exec/Extract.required_vo: theories/Exec/Extract.v theories/Exec/Entry.vo
 theories/Exec/Extract.vio: theories/Exec/Extract.v theories/Exec/Entry.vio
 theories/Exec/Extract.vos theories/Exec/Extract.vok theories/Exec/Extract.required_vos: theories/Exec/Extract.v theories/Exec/Entry.vos
 theories/Gen/ETDRK.vo theories/Gen/ETDRK.glob theories/Gen/ETDRK.v.beautified theories/Gen/ETDRK.required_vo: theories/Gen/ETDRK.v theories/Base/Scalar.vo
 theories/Gen/ETDRK.vio: theories/Gen/ETDRK.v theories/Base/Scalar.vio
 theories/Gen/ETDRK.vos theories/Gen/ETDRK.vok theories/Gen/ETDRK.required_vos: theories/Gen/ETDRK.v theories/Base/Scalar.vos
+theories/Gen/Guards.vo theories/Gen/Guards.glob theories/Gen/Guards.v.beautified theories/Gen/Guards.required_vo: theories/Gen/Guards.v 
+theories/Gen/Guards.vio: theories/Gen/Guards.v 
+theories/Gen/Guards.vos theories/Gen/Guards.vok theories/Gen/Guards.required_vos: theories/Gen/Guards.v 
 theories/Props/C02.vo theories/Props/C02.glob theories/Props/C02.v.beautified theories/Props/C02.required_vo: theories/Props/C02.v theories/Base/Scalar.vo theories/Base/FieldLemmas.vo theories/ETDRK/Phi.vo theories/ETDRK/Order.vo theories/Gen/ETDRK.vo theories/Tie/ETDRKTie.vo theories/Base/Cplx.vo
 theories/Props/C02.vio: theories/Props/C02.v theories/Base/Scalar.vio theories/Base/FieldLemmas.vio theories/ETDRK/Phi.vio theories/ETDRK/Order.vio theories/Gen/ETDRK.vio theories/Tie/ETDRKTie.vio theories/Base/Cplx.vio
 theories/Props/C02.vos theories/Props/C02.vok theories/Props/C02.required_vos: theories/Props/C02.v theories/Base/Scalar.vos theories/Base/FieldLemmas.vos theories/ETDRK/Phi.vos theories/ETDRK/Order.vos theories/Gen/ETDRK.vos theories/Tie/ETDRKTie.vos theories/Base/Cplx.vos
 theories/Props/C14.vo theories/Props/C14.glob theories/Props/C14.v.beautified theories/Props/C14.required_vo: theories/Props/C14.v theories/Utils/Rollout.vo theories/Utils/RolloutProofs.vo
 theories/Props/C14.vio: theories/Props/C14.v theories/Utils/Rollout.vio theories/Utils/RolloutProofs.vio
 theories/Props/C14.vos theories/Props/C14.vok theories/Props/C14.required_vos: theories/Props/C14.v theories/Utils/Rollout.vos theories/Utils/RolloutProofs.vos
+theories/Props/C20.vo theories/Props/C20.glob theories/Props/C20.v.beautified theories/Props/C20.required_vo: theories/Props/C20.v theories/Gen/Guards.vo
+theories/Props/C20.vio: theories/Props/C20.v theories/Gen/Guards.vio
+theories/Props/C20.vos theories/Props/C20.vok theories/Props/C20.required_vos: theories/Props/C20.v theories/Gen/Guards.vos
 theories/Tie/ETDRKTie.vo theories/Tie/ETDRKTie.glob theories/Tie/ETDRKTie.v.beautified theories/Tie/ETDRKTie.required_vo: theories/Tie/ETDRKTie.v theories/Base/Scalar.vo theories/Base/FieldLemmas.vo theories/ETDRK/Phi.vo theories/Gen/ETDRK.vo
 theories/Tie/ETDRKTie.vio: theories/Tie/ETDRKTie.v theories/Base/Scalar.vio theories/Base/FieldLemmas.vio theories/ETDRK/Phi.vio theories/Gen/ETDRK.vio
 theories/Tie/ETDRKTie.vos theories/Tie/ETDRKTie.vok theories/Tie/ETDRKTie.required_vos: theories/Tie/ETDRKTie.v theories/Base/Scalar.vos theories/Base/FieldLemmas.vos theories/ETDRK/Phi.vos theories/Gen/ETDRK.vos
